@@ -1,4 +1,5 @@
 //! pfv — harness binding the TLA+ specification to the real pickle-fuzzer code.
+mod calls;
 mod common;
 mod edges;
 mod history;
@@ -12,6 +13,7 @@ fn main() {
     let code = match args.first().map(|s| s.as_str()) {
         Some("run-jobs") => jobs::main(&args[1..]),
         Some("edges") => edges::main(&args[1..]),
+        Some("calls") => calls::main(&args[1..]),
         Some("replay-paths") => edges::replay_paths(&args[1..]),
         Some("reuse") => history::reuse(&args[1..]),
         Some("determinism") => history::determinism(&args[1..]),
